@@ -43,11 +43,13 @@ def extra_unit_root_specs():
     out.append(S(2, [rw, fwd], [dict(terms=[(1, 0, 1.0)], const=0.0, shock=True)], False, "ur_forward"))
     out.append(linre.oscillating_spec("two"))
     out.append(linre.oscillating_spec("one"))
+    out.append(linre.shared_measurement_shock_spec())
+    out += linre.unit_root_declared_last_specs()
     return out
 
 
 def std_vectors(spec, seed):
-    names = ["std_" + spec.shk(i) for i in range(spec.n)] + ["std_" + spec.mshk(k) for k, e in enumerate(spec.meas) if e.get("shock")]
+    names = ["std_" + spec.shk(i) for i in range(spec.n) if spec.eqs[i].get("shock", True)] + ["std_" + spec.mshk(k) for k, e in enumerate(spec.meas) if e.get("shock")]
     r = 1.0 + 0.1 * (seed % 3)
     return names, [
         [1.0 * r] * len(names),
@@ -102,7 +104,7 @@ def oracle(sol, vec, su, sw, order, n_terms=1500):
 
 def build(spec):
     with contextlib.redirect_stdout(io.StringIO()):
-        m = ir.Simultaneous.from_string(spec.source(), linear=not spec.log, flat=True)
+        m = ir.Simultaneous.from_string(spec.source(), linear=not spec.log, flat=spec.flat)
         m.assign(**spec.param_values())
         m.steady()
         m.solve()
